@@ -58,6 +58,18 @@ METHODS = {".sum", ".all", ".any", ".max", ".min", ".mean", ".std", ".ptp", ".ar
            ".squeeze", ".swapaxes", ".take", ".clip", ".trace", ".diagonal", ".conjugate", ".cumprod", ".searchsorted", ".argpartition", ".compress", ".todense", ".multiply"}
 
 
+def symbolic_array(shape, name: str, complex_: bool = True):
+    """object array of distinct exact symbols a + i b (real a, b): numpy's multilinear routines (dot, tensordot, einsum, matmul,
+    sum, trace, conj) then compute exact polynomials, so an identity between two extracted forms can be decided exactly for
+    this shape."""
+    import sympy as _sp
+    a = np.empty(shape, dtype=object)
+    for idx in np.ndindex(*shape):
+        tag = "".join(map(str, idx))
+        a[idx] = _sp.Symbol(f"{name}r{tag}", real=True) + (_sp.I * _sp.Symbol(f"{name}i{tag}", real=True) if complex_ else 0)
+    return a
+
+
 def ev(t: Term, env: Dict[Term, Any]) -> Any:
     if t in env:
         return env[t]
@@ -96,6 +108,12 @@ def ev(t: Term, env: Dict[Term, Any]) -> Any:
         raise Unsupported(f)
     if k == "attr":
         base = ev(t[1], env)
+        if t[2] in ("real", "imag") and isinstance(base, np.ndarray) and base.dtype == object:
+            import sympy as _sp        # arrays of exact symbolic entries: element-wise real / imaginary part
+            return np.vectorize(_sp.re if t[2] == "real" else _sp.im, otypes=[object])(base)
+        if t[2] in ("real", "imag") and not isinstance(base, (np.ndarray, int, float, complex, np.generic)):
+            import sympy as _sp
+            return _sp.re(base) if t[2] == "real" else _sp.im(base)
         if t[2] in ("T", "shape", "size", "real", "imag", "ndim"):
             return getattr(base, t[2])
         if isinstance(base, dict) and t[2] in base:
